@@ -14,7 +14,11 @@ truncated at EVERY byte offset 0..len and each truncated file is read with the r
                                 dns request->response|error; flows interleaved) crossed with a runtime history of the options:
                                 save_stream_file initially unset and switched on while flows are in flight, re-targeted to another
                                 path without switching off, switched off and on again (same or other file, overwrite or '+'
-                                append, also onto a pre-existing file), save_stream_filter set/changed/cleared.  After EVERY
+                                append, also onto a pre-existing file), save_stream_filter set/changed/cleared.  In ~45% of the histories
+                                save_stream_file is a strftime pattern (..-%d%H%M.mitm) and the addon's datetime.today() is a
+                                virtual clock advanced between hooks (seconds to hours: several time-based rollovers per history,
+                                rotation happening inside the end hook that first notices the new name); the model follows the
+                                union of all files the pattern produced.  After EVERY
                                 event every stream file is read through a second descriptor -- what survives a kill -9 -- and
                                 must hold exactly: every flow that finished while a stream was configured and matched the filter
                                 (own evaluation of the filter), in the file that was current at that moment, in order, with its
@@ -77,12 +81,12 @@ LEVEL = "fault_enumeration"
 BUDGET = {"quick": (100_000, 13), "thorough": (20_000_000, 180)}
 MIN_CASES = {"quick": 2, "thorough": 2}  # one case = one file with every crash offset
 WORKERS = {"quick": 2, "thorough": 16}
-REQUIRED = ["truncated_read_exact_prefix", "stream_file_complete_after_hook", "write_fault_injected", "file_after_write_fault_consistent", "explicit_save_file_complete", "files_fully_enumerated"]
+REQUIRED = ["truncated_read_exact_prefix", "stream_file_complete_after_hook", "strftime_path_schedules", "write_fault_injected", "file_after_write_fault_consistent", "explicit_save_file_complete", "files_fully_enumerated"]
 ENGINE = "direct"
 TECHNIQUE = "exhaustive truncation of real writer output at every byte offset; second-descriptor observation after each stream-save hook"
 RULE = (
     "files: 1-5 random flows (http, websocket, tcp, udp, dns; generator vf/gen/flows.py, size 'small') written by save.file, by stream saving "
-    "(proxy-like hook histories incl. error without request hook, interleaved flows, crossed with runtime changes of save_stream_file -- unset->set mid-flight, re-target, off/on, overwrite/append -- and of save_stream_filter) or by FlowWriter; every byte offset of every file is "
+    "(proxy-like hook histories incl. error without request hook, interleaved flows, crossed with runtime changes of save_stream_file -- unset->set mid-flight, re-target, off/on, overwrite/append, strftime patterns rolled over by a virtual clock -- and of save_stream_filter) or by FlowWriter; every byte offset of every file is "
     "one case (crash point). Signature = (writer, kind of the record that is cut, where the cut falls: boundary / length prefix / colon / payload / "
     "before type tag, index of the cut record, outcome clean-end or FlowReadException). Non-trivial: offsets strictly inside a record (a partial record exists)"
 )
